@@ -1,6 +1,6 @@
 (** C15 - the reported availability figures are truthful and account for every piece.  Statements only. *)
 From TB Require Import Base Decimal BencodeModel TorrentModel TorrentProofs PathModel FsModel SolverModel FinderModel RunModel
-                       SolverProofs RunProofs FsProofs FaultProofs PreludeProofs TableProofs Generated GeneratedObligations SystemModel SystemProofs GlueProofs EstablishProofs RunExample.
+                       SolverProofs RunProofs FsProofs FaultProofs PreludeProofs TableProofs Generated GeneratedObligations SystemModel SystemProofs GlueProofs EstablishProofs RunExample SearchProofs CompleteProofs RerunProofs AvailProofs TerminationProofs.
 Local Open Scope N_scope.
 
 (** After any list of piece outcomes (none of which is a panic - C16), succeeded + failed + faulted
@@ -48,8 +48,28 @@ Example C15_fault_free_run_exists :
   exists s, freach {| s_fs := ex_f0; s_pool := ex_pool |} s /\ nth_error (s_pool s) 0 = Some (Ret Success).
 Proof. exact ex_freach. Qed.
 
+(** "... and every piece that already verified in the export tree, or whose data was available as in
+    C02, is counted as succeeded": in every complete fault-free run the evaluation of a piece whose
+    data is present ([seg_present_stable]; a piece that already verifies is present in its own
+    export files, which are their own first candidates - C04) has returned [Success], the outcome
+    the counters of C15_counters_sum count as succeeded; and it is then in place. *)
+Theorem C15_available_piece_counted_succeeded H content es0 ix es dev under pc s i :
+  table_functional content es -> wf_piece content pc -> Forall (fun sg => In (ps_entry sg) es) (w_segs pc) ->
+  cr H content pc -> H (piece_bytes content pc) = w_hash pc -> Forall (pad_zero content) (w_segs pc) ->
+  w_segs pc <> [] -> (forall sg, w_segs pc = [sg] -> ps_len sg <> 0) ->
+  populate ix es0 = Ok es -> ix_of_fs (s_fs s) dev under es0 ix ->
+  Forall (seg_present_stable content (s_fs s) under es0 es) (w_segs pc) ->
+  alias_free content es (s_fs s) -> Forall (pgood content es) (s_pool s) ->
+  nth_error (s_pool s) i = Some (solve_prog H pc) ->
+  (exists s', freach s s' /\ finished s') /\
+  (forall s', freach s s' -> finished s' ->
+     nth_error (s_pool s') i = Some (Ret Success) /\
+     forall sg, In sg (w_segs pc) -> e_pad (ps_entry sg) = false -> holds_seg content (s_fs s') sg).
+Proof. exact (present_piece_is_recovered_in_every_complete_run H content es0 ix es dev under pc s i). Qed.
+
 Print Assumptions C15_counters_sum.
 Print Assumptions C15_one_line_per_piece.
 Print Assumptions C15_success_only_via_good_trace.
 Print Assumptions C15_success_means_in_place.
 Print Assumptions C15_in_place_forever.
+Print Assumptions C15_available_piece_counted_succeeded.
